@@ -10,7 +10,7 @@ TECH = 'contract-based deductive verification (Verus/Z3) of function text extrac
 
 CLAIMED = {
     'C02': dict(
-        text='Deductive proof of frame conditions over the real text of MemoryLoc::{with_offset,into_value,write_val,write_all,memset}, UnwrapOrAlloca::unwrap_or_alloca the variant->enum arm of cast_into_memory, create_nil_value and the nil branch of the optional->optional arm: every store these functions emit lies inside the destination object [loc, loc+size(ty)) (and a freshly allocated slot is exactly size(ty) bytes), for all types, offsets and loop iterations.',
+        text='Deductive proof of frame conditions over the real text of MemoryLoc::{with_offset,into_value,write_val,write_all,memset}, UnwrapOrAlloca::unwrap_or_alloca the variant->enum arm of cast_into_memory, create_nil_value, the nil branch of the optional->optional arm and cast_payload_into_tagged_union (payload -> optional / error union): every store these functions emit lies inside the destination object [loc, loc+size(ty)) (and a freshly allocated slot is exactly size(ty) bytes), for all types, offsets and loop iterations.',
         note='Partial: cast_into_memory as a whole, cast_struct_to_struct, cast_array_to_array and the ABI copy loops are not under contract -- only the store-emitting callees they use. Trusted: Cranelift store footprints (shims/verus/clif.rs), layout contracts (proved in unit layout), disjointness of distinct slots/objects, operands carry their type\'s width. "A copy is made on assignment" is only covered as "the copy writes exactly the destination".',
         ref='DESIGN.md 5 (C02)'),
     'C03': dict(
